@@ -198,24 +198,6 @@ theorem isoRhs_cast (x : Nat) : ((H2C.isoRhs x : Nat) : ZMod P)
 theorem isoA_ne_zero : (H2C.isoA : ZMod P) ≠ 0 :=
   ConcreteG1.cast_ne_zero (by decide) (by decide)
 
-def zu2 (u : Nat) : Nat := Fp.mul H2C.sswuZ (Fp.sq u)
-def tv1 (u : Nat) : Nat := Fp.inv (Fp.add (Fp.sq (zu2 u)) (zu2 u))
-/-- `x1` in the exceptional case, `B' / (Z·A')`. -/
-def x1exc : Nat := Fp.mul H2C.isoB (Fp.inv (Fp.mul H2C.sswuZ H2C.isoA))
-def x1 (u : Nat) : Nat :=
-  if tv1 u == 0 then x1exc
-  else Fp.mul (Fp.mul (Fp.neg H2C.isoB) (Fp.inv H2C.isoA)) (Fp.add 1 (tv1 u))
-/-- The pair chosen by SSWU before the sign adjustment. -/
-def core (u : Nat) : Nat × Nat :=
-  match Fp.sqrt? (H2C.isoRhs (x1 u)) with
-  | some y1 => (x1 u, y1)
-  | none => (Fp.mul (zu2 u) (x1 u), Fp.pow (H2C.isoRhs (Fp.mul (zu2 u) (x1 u))) ((P + 1) / 4))
-
-theorem sswu_eq (u : Nat) : H2C.sswu u =
-    ((core (u % P)).1,
-      if Fp.sgn0 (u % P) != Fp.sgn0 (core (u % P)).2 then Fp.neg (core (u % P)).2
-      else (core (u % P)).2) := rfl
-
 /-- `1 / (Z·A')`. -/
 def excW : Nat := 0xaea52ae7093dc2a9262c5ed6dcecc1cc11251b33feedaefc2a209abe35260c66f61ccdb880ab37ecd9f6d4350077488
 /-- A root of `g'(B'/(Z·A'))`. -/
@@ -225,19 +207,16 @@ theorem excW_spec : 11 * H2C.isoA * excW % P = 1 % P := by decide +kernel
 theorem excR_spec : ((H2C.isoB * excW) ^ 3 + H2C.isoA * (H2C.isoB * excW) + H2C.isoB) % P
     = excR * excR % P := by decide +kernel
 
-theorem x1exc_cast : ((x1exc : Nat) : ZMod P) = (H2C.isoB : ZMod P) * (excW : ZMod P) := by
-  have h := (ZMod.natCast_eq_natCast_iff' _ _ _).mpr excW_spec
-  push_cast at h
-  unfold x1exc
-  rw [fmul_cast, finv_cast, fmul_cast]
-  have e : ((H2C.sswuZ : Nat) : ZMod P) = 11 := by unfold H2C.sswuZ; norm_num
-  rw [e, ← eq_inv_of_mul_eq_one_right h]
-
-/-- In the exceptional case `g'(x1)` is a square (this is how `Z` is chosen, RFC 9380 App. H.2
-criterion 4), so the `x2` branch is never taken there. -/
-theorem x1exc_sq : IsSquare ((H2C.isoRhs x1exc : Nat) : ZMod P) := by
+/-- `x1 = B'/(Z·A')` of the exceptional case, for any function `iv` computing inverses. -/
+theorem x1exc_sq (iv : Nat → Nat) (iv_cast : ∀ a, ((iv a : Nat) : ZMod P) = (a : ZMod P)⁻¹) :
+    IsSquare ((H2C.isoRhs (Fp.mul H2C.isoB (iv (Fp.mul H2C.sswuZ H2C.isoA))) : Nat) : ZMod P) := by
+  have hw := (ZMod.natCast_eq_natCast_iff' _ _ _).mpr excW_spec
+  push_cast at hw
   have h := (ZMod.natCast_eq_natCast_iff' _ _ _).mpr excR_spec
   push_cast at h
-  exact ⟨(excR : ZMod P), by rw [isoRhs_cast, x1exc_cast, ← h]; ring⟩
+  have e : ((H2C.sswuZ : Nat) : ZMod P) = 11 := by unfold H2C.sswuZ; norm_num
+  refine ⟨(excR : ZMod P), ?_⟩
+  rw [isoRhs_cast, fmul_cast, iv_cast, fmul_cast, e, ← eq_inv_of_mul_eq_one_right hw]
+  linear_combination h
 
 end Zk.MapToCurve
